@@ -146,10 +146,37 @@ Proof.
 Qed.
 
 (* the documented ladder alpha < beta < M = milestone < RC < SNAPSHOT < dev < (anything else) *)
+(* stated on the ORDER of the generated ranks only (the reference numbering 1,2,3,3,4,5,6 / 99 of
+   the Go switch is one instance): an order-preserving renumbering of the switch is harmless *)
 Lemma precedence_ladder :
-  map qualifier_precedence [$"alpha"; $"beta"; $"m"; $"rc"; $"snapshot"; $"dev"; $"final"]
-  = [1; 2; 3; 4; 5; 6; 99]%Z.
-Proof. reflexivity. Qed.
+  let p := qualifier_precedence in
+  (p $"alpha" < p $"beta" < p $"m")%Z /\ p $"m" = p $"milestone" /\
+  (p $"m" < p $"rc" < p $"snapshot")%Z /\ (p $"snapshot" < p $"dev" < p $"final")%Z /\
+  p $"final" = qualifier_precedence_default.
+Proof. vm_compute. repeat split; reflexivity. Qed.
+
+(* the same, as an order isomorphism with the reference ranks *)
+Definition order_pattern (l : list Z) : list (list comparison) :=
+  map (fun x => map (Z.compare x) l) l.
+Lemma precedence_ladder_iso :
+  order_pattern
+    (map qualifier_precedence [$"alpha"; $"beta"; $"m"; $"milestone"; $"rc"; $"snapshot"; $"dev"; $"final"])
+  = order_pattern [1; 2; 3; 3; 4; 5; 6; 99]%Z.
+Proof. vm_compute. reflexivity. Qed.
+
+(* every listed qualifier ranks strictly below the default ("anything else comes last") *)
+Lemma listed_below_default q p :
+  lookup q qualifier_precedence_table = Some p -> (p < qualifier_precedence_default)%Z.
+Proof.
+  assert (H : forallb (fun e => (snd e <? qualifier_precedence_default)%Z) qualifier_precedence_table = true)
+    by (vm_compute; reflexivity).
+  rewrite forallb_forall in H. intros L.
+  apply Z.ltb_lt. apply (H (q, p)). revert L. generalize qualifier_precedence_table.
+  induction l as [|[k v] l IH]; [discriminate|]. cbn [lookup].
+  destruct (beq q k) eqn:E.
+  - intros X. injection X as ->. apply beq_eq in E. subst. left. reflexivity.
+  - intros X. right. auto.
+Qed.
 
 Lemma letter_not_digit x : is_digit x = true -> is_letter x = false.
 Proof.
